@@ -2,53 +2,9 @@ package processor
 
 import (
 	"context"
-	"crypto/ecdsa"
-	"time"
 
-	"github.com/alephium/wormhole-fork/node/pkg/common"
-	"github.com/alephium/wormhole-fork/node/pkg/db"
-	gossipv1 "github.com/alephium/wormhole-fork/node/pkg/proto/gossip/v1"
-	"github.com/alephium/wormhole-fork/node/pkg/reporter"
-	"github.com/alephium/wormhole-fork/node/pkg/vaa"
 	"github.com/alephium/wormhole-fork/node/pkg/zzverif"
-	ethcommon "github.com/ethereum/go-ethereum/common"
-	"go.uber.org/zap"
 )
-
-type verifSigner struct{ id int }
-
-func (s *verifSigner) Sign(d []byte) ([]byte, error) { return zzverif.SignBy(s.id, d), nil }
-func (s *verifSigner) PublicKey() ecdsa.PublicKey    { return zzverif.PubKey(s.id) }
-
-func verifNewProcessor(own int) *Processor {
-	d, err := db.Open(zzverif.TempDir())
-	if err != nil {
-		panic(err)
-	}
-	return &Processor{
-		lockC: make(chan *common.MessagePublication, 8), setC: make(chan *common.GuardianSet, 8),
-		sendC: make(chan []byte, 64), obsvC: make(chan *gossipv1.SignedObservation, 64),
-		obsvReqSendC: make(chan *gossipv1.ObservationRequest, 4), signedInC: make(chan *gossipv1.SignedVAAWithQuorum, 8),
-		injectC: make(chan *vaa.VAA, 8), guardianSigner: &verifSigner{own},
-		gst: common.NewGuardianSetState(nil), db: d, attestationEvents: reporter.EventListener(zap.NewNop()),
-		logger: zap.NewNop(), state: &aggregationState{vaaMap{}}, ourAddr: ethcommon.Address(zzverif.AddrOf(own)),
-		governanceChainId: 1, governanceEmitterAddress: vaa.Address{31: 4},
-	}
-}
-
-func verifMessage(tag string) *common.MessagePublication {
-	k := &common.MessagePublication{
-		Timestamp:        time.Unix(int64(zzverif.U32(tag+".ts")), 0),
-		Nonce:            zzverif.U32(tag + ".nonce"),
-		Sequence:         zzverif.U64(tag + ".seq"),
-		ConsistencyLevel: zzverif.U8(tag + ".cl"),
-		EmitterChain:     vaa.ChainID(zzverif.U16(tag + ".ec")),
-		TargetChain:      vaa.ChainID(zzverif.U16(tag + ".tc")),
-		Payload:          zzverif.Bytes(tag+".payload", zzverif.Len(tag+".plen", 0, 1, 2)),
-	}
-	copy(k.EmitterAddress[:], zzverif.Bytes(tag+".emitter", 32))
-	return k
-}
 
 // Single-guardian history: observe, loop back, observe the same message again.
 func VerifC13_ObserveTwice() {
@@ -57,7 +13,7 @@ func VerifC13_ObserveTwice() {
 
 func verifC13ObserveTwice(ctx context.Context) {
 	p := verifNewProcessor(0)
-	p.gs = &common.GuardianSet{Keys: []ethcommon.Address{p.ourAddr}, Index: 0}
+	p.gs = verifSet(0, 0)
 	k := verifMessage("m")
 	zzverif.NoPanic(func() {
 		p.handleMessage(ctx, k)
@@ -71,20 +27,4 @@ func verifC13ObserveTwice(ctx context.Context) {
 		p.handleMessage(ctx, k)
 		zzverif.Reach("observed-again")
 	})
-}
-
-// the loopback is queued by a goroutine: immediate in the executor, awaited natively
-func verifRecvObs(p *Processor) *gossipv1.SignedObservation {
-	if zzverif.Symbolic() {
-		if len(p.obsvC) == 0 {
-			return nil
-		}
-		return <-p.obsvC
-	}
-	select {
-	case o := <-p.obsvC:
-		return o
-	case <-time.After(500 * time.Millisecond):
-		return nil
-	}
 }
